@@ -74,16 +74,24 @@ func vacuityGuard(r *vk.Run, hist map[string]int64, need ...string) {
 // histSink additionally keeps the "rebalance:*" outcome classes for the vacuity guard and the coverage map.
 type histSink struct {
 	Sink
-	mu   sync.Mutex
-	hist map[string]int64
+	mu    sync.Mutex
+	hist  map[string]int64
+	other map[string]int64 // C24: "cfg_start:*" / "after_takeover:*" classes
 }
 
-func newHistSink(s Sink) *histSink { return &histSink{Sink: s, hist: map[string]int64{}} }
+func newHistSink(s Sink) *histSink {
+	return &histSink{Sink: s, hist: map[string]int64{}, other: map[string]int64{}}
+}
 
 func (h *histSink) Outcome(class string) {
-	if strings.HasPrefix(class, "rebalance:") {
+	switch {
+	case strings.HasPrefix(class, "rebalance:"):
 		h.mu.Lock()
 		h.hist[strings.TrimPrefix(class, "rebalance:")]++
+		h.mu.Unlock()
+	case strings.HasPrefix(class, "cfg_start:"), strings.HasPrefix(class, "after_takeover"):
+		h.mu.Lock()
+		h.other[class]++
 		h.mu.Unlock()
 	}
 	h.Sink.Outcome(class)
